@@ -207,6 +207,18 @@ def main():
     step_entry("entry_push", ["acc", "e"], lambda pre, l: None if pre is None else "(push %s (custom \"e\"))" % acc_sx(pre), exp_push)
 
     # handle / handle_in
+    kind_t = prog.find_ty("darling::error::kind::ErrorKind")
+    multiple_idx = [i for i, v in enumerate(kind_t.adt["variants"]) if v["name"] == "Multiple"][0]
+
+    def handled_error(l, name="r.Err.0"):
+        """canonical form of the handled error: a plain error, or - when the path looked inside and found a bundle - that bundle
+        (so that the native replay hands over a bundle too: its members must stay one recorded error)"""
+        if l.decisions.get(name + ".kind#d") == multiple_idx:
+            n = l.decisions.get(name + ".kind.Multiple.0#len")
+            if n is not None:
+                return ("M", [("E", "%s.kind.Multiple.0[%d]" % (name, i)) for i in range(n)])
+        return ("E", name)
+
     for ent, req in (("entry_handle", "handle"), ("entry_handle_in", "handle_in")):
         def exp_handle(pre, l, I, e):
             isok = l.decisions.get("r#d") == 0
@@ -222,8 +234,8 @@ def main():
                 return "returned", chk, {"result": {"acc": [err_json(x) for x in p], "ret": 41}}
             if pre is None:
                 return "panicked", (lambda g, l: g == [DEFUSED]), {"panic": DEFUSED}
-            post = pre + [("E", "r.Err.0")]
-            return "returned", (lambda g, l: acc_state(g[0], l) == post and isinstance(g[1], dict) and g[1].get("_v") == "None"), \
+            post = pre + [handled_error(l)]
+            return "returned", (lambda g, l: acc_state(g[0], l) in (post, pre + [("E", "r.Err.0")]) and isinstance(g[1], dict) and g[1].get("_v") == "None"), \
                 {"result": {"acc": [err_json(x) for x in post], "ret": None}}
 
         def req_handle(pre, l, req=req):
@@ -233,7 +245,7 @@ def main():
                 return "(%s %s (ok 41))" % (req, acc_sx(p))
             if pre is None:
                 return None
-            return "(%s %s (err (custom \"r.Err.0\")))" % (req, acc_sx(p))
+            return "(%s %s (err %s))" % (req, acc_sx(p), err_sx(handled_error(l)))
         # when the accumulator is untouched pre is ('any', ..): make it natively an empty armed one
         I, e, leaves = None, None, None
         step_entry_pre_any = True
